@@ -213,7 +213,13 @@ def unpriv(mon, spec):
             rn, rt, rm = rng.sample([0, 1, 2, 3, 4, 5, 6, 7, 8, 9, 10, 11, 12, 14], 3)
             protected = rng.random() < 0.6
             is_store = name.startswith('STR')
-            if protected:
+            # a third of the cases: no all-covering region; privileged code runs from the background map (SCTLR.BR = 1), and
+            # the target lies in NO region (or in a disabled sub-region): an unprivileged access must take a background fault
+            background = rng.random() < 0.3
+            if background:
+                protected = True
+                target = rng.choice([0x100, 0x104, 0x4000, 0x5000, 0x101, 0x6000, 0x6804, 0x6FFC, 0x3000, 0x10800, 0x11000, 0x117FC])
+            elif protected:
                 # aligned, unaligned (byte-wise path of MemU) and straddling the boundary of the privileged-only region;
                 # for stores also the privileged-RW / user-RO region at 0x11800
                 target = rng.choice([0x1000, 0x1004, 0x1800, 0x1FF0, 0x1001, 0x1002, 0x1003, 0x17FE, 0x1FF1, 0x0FFE, 0x0FFF, 0x0FFD])
@@ -242,6 +248,10 @@ def unpriv(mon, spec):
                 regs[rn] = (target - imm) & 0xFFFFFFFF
             desc = mon.scen.prepare(ctx, rng, kind, w, mode=mode, itpos='out', ns=ns, regs=regs)
             desc['insn'] = name
+            if background:
+                ctx.cpu.registers.drsrs[0].en = 0
+                ctx.cpu.registers.sctlr.br = 1
+                desc['background_region_case'] = True
             if ctx.cfg['arch_version'] == 6:
                 ctx.cpu.registers.sctlr.u = 1 if rng.random() < 0.7 else 0
             ctx.cpu.registers.sctlr.a = 1 if rng.random() < 0.1 else 0
@@ -250,7 +260,7 @@ def unpriv(mon, spec):
                 # legacy alignment model: the access is made at the aligned-down address
                 size = 1 if name[3:5] in ('BT', 'SB') else (2 if name[3:5] in ('HT', 'SH') else 4)
                 eff = target & ~(size - 1)
-                if protected and not (0x1000 <= eff < 0x2000 or 0x11800 <= eff < 0x12000):
+                if protected and not background and not (0x1000 <= eff < 0x2000 or 0x11800 <= eff < 0x12000):
                     protected = False
             pre = observe.snapshot(ctx.cpu)
             del log[:]
@@ -268,10 +278,14 @@ def unpriv(mon, spec):
                 mon.bump('unpriv_on_protected')
                 if (post['cpsr'] & 0x1F) != 0b10111:
                     mon.report('C19|unpriv-variant-not-aborted-on-privileged-only-region|%s' % name, desc, desc)
+                elif background and (pre['mem0'] != post['mem0'] or pre['mem1'] != post['mem1']):
+                    mon.report('C19|unpriv-variant-stored-despite-abort|%s|background' % name, desc, desc)
                 elif pre['mem0'][0x1000:0x3000] != post['mem0'][0x1000:0x3000] or pre['mem1'][0x1800:0x2000] != post['mem1'][0x1800:0x2000]:
                     mon.report('C19|unpriv-variant-stored-despite-abort|%s' % name, desc, desc)
                 if target & 3:
                     mon.bump('unpriv_unaligned_on_protected')
+                if background:
+                    mon.bump('unpriv_on_background_only_address')
             else:
                 mon.bump('unpriv_on_open')
     finally:
@@ -364,6 +378,8 @@ def finish(agg, tier, seed):
         inc.append('Thumb-16 space not covered completely')
     if c.get('path_enumeration_incomplete', 0):
         inc.append('decoder path enumeration incomplete')
+    if c.get('unpriv_on_background_only_address', 0) < 100:
+        inc.append('too few unprivileged-variant accesses to addresses only the background region covers (%d)' % c.get('unpriv_on_background_only_address', 0))
     if c.get('unpriv_unaligned_on_protected', 0) < 100:
         inc.append('too few unaligned unprivileged-variant accesses on the protected region (%d)' % c.get('unpriv_unaligned_on_protected', 0))
     if c.get('unpriv_on_protected', 0) < 200:
